@@ -2199,6 +2199,17 @@ fn utf8_member(rng: &mut Rng) -> Vec<u8> {
     }
 }
 
+/// any bytes (sets and hash fields are binary safe since the fixes c9e4f2c / 8832ec4)
+fn any_member(rng: &mut Rng) -> Vec<u8> {
+    match rng.below(8) {
+        0 => vec![0xff],
+        1 => vec![0xfe, 0xff],
+        2 => vec![0xef, 0xbf, 0xbd],          // the lossy form of 0xff: must stay a DIFFERENT member
+        3 => vec![0x00, 0x80],
+        _ => utf8_member(rng),
+    }
+}
+
 fn set_sequence(d: &mut Dx, rng: &mut Rng) {
     let mut log: Vec<String> = Vec::new();
     let mut bad: Vec<(String, String)> = Vec::new();
@@ -2207,7 +2218,7 @@ fn set_sequence(d: &mut Dx, rng: &mut Rng) {
     let mut r: BTreeSet<Vec<u8>> = BTreeSet::new();
     let r0 = guard(|| {
         for _ in 0..rng.range(3, 40) {
-            let m = utf8_member(rng);
+            let m = any_member(rng);
             let key = SDS::new(m.clone());
             match rng.below(10) {
                 0..=3 => {
@@ -2277,7 +2288,7 @@ fn hash_sequence(d: &mut Dx, rng: &mut Rng) {
     let mut r: BTreeMap<Vec<u8>, Vec<u8>> = BTreeMap::new();
     let r0 = guard(|| {
         for _ in 0..rng.range(3, 40) {
-            let f = utf8_member(rng);
+            let f = any_member(rng);
             let key = SDS::new(f.clone());
             match rng.below(10) {
                 0..=4 => {
